@@ -66,6 +66,7 @@ type Eng struct {
 	store *mavl.Store
 	tcfg  *mavldb.TreeConfig
 	q     queue.Queue
+	lazy  bool
 	// PruneHeight is the configured prune interval (0: the default 100000000, i.e. pruning never triggers)
 	PruneHeight int32
 	// PruneMode: replay files are for the pruning engine ("new <pruneHeight>")
@@ -641,7 +642,7 @@ func (e *Eng) replayLine(f []string) bool {
 	if len(f) == 0 {
 		return false
 	}
-	if e.store == nil && f[0] != "new" {
+	if e.store == nil && f[0] != "new" && f[0] != "lazy" && f[0] != "eager" {
 		if e.PruneMode {
 			e.NewPrune(0)
 		} else {
@@ -651,6 +652,13 @@ func (e *Eng) replayLine(f []string) bool {
 	ok := true
 	need := func(n int) bool { return len(f) == n }
 	switch f[0] {
+	case "lazy", "eager": // selects the driver's model; "reopen" after "lazy" stands for a cold restart
+		if !need(1) {
+			return false
+		}
+		e.lazy = f[0] == "lazy"
+		e.Out.Op(f[0], "ok")
+		return true
 	case "new":
 		if !need(2) {
 			return false
@@ -673,7 +681,11 @@ func (e *Eng) replayLine(f []string) bool {
 		if !need(1) {
 			return false
 		}
-		e.Reopen()
+		if e.lazy {
+			e.ColdReopen()
+		} else {
+			e.Reopen()
+		}
 	case "restart":
 		if !need(1) {
 			return false
